@@ -408,6 +408,7 @@ class Exec:
         self.facts = facts
         self.callees = {}
         self.npaths = 0
+        self.no_inline = set()      # lids kept opaque (to read off the argument handed to them)
 
     # ---- callee registry
     def callee(self, d):
@@ -420,7 +421,7 @@ class Exec:
 
     def is_generated_local(self, lid, span):
         """inline only bodies whose definition comes from macro-generated tokens"""
-        if lid is None:
+        if lid is None or lid in self.no_inline:
             return False
         f = self.facts.fns.get(lid)
         if f is None:
